@@ -44,8 +44,8 @@ Full statement / proved / missing
     not depend on the rule (`inst_sfh`, through C02), and wherever the code is unsound the rule-off relation rejects the pair: every
     unsound acceptance of the code is one that only the Struct-from-Hash arm grants.  (Not proved: a syntactic localisation such as the
     harness class `unsound-sfh` = "A contains a Struct and B a Hash type".)
-  - second-tier types (Callable, Like, Init, TypeReference, SemVer, URI, Runtime with a Go type) and user recursive aliases (Timestamp[min,max],
-    Iterator[T] and Runtime[runtime, name, pattern] are inside the model since the extension round: every theorem of this file covers them; Iterator and Runtime have no instance in the
+  - second-tier types (Like, Init, TypeReference, SemVer, URI, Runtime with a Go type) and user recursive aliases (Timestamp[min,max],
+    Iterator[T], Runtime[runtime, name, pattern] and Callable[params, return, block] are inside the model since the extension round: every theorem of this file covers them; Iterator, Runtime and Callable have no instance in the
     value language, so their soundness is vacuous and what is checked of them is assignability, equality, generalisation, commonType):
     not in the model; harness-side tests only.
 -/
@@ -162,6 +162,14 @@ theorem C01_sfh_witness :
     simp [asg, asgRecv, sameNullary, structReq, structSize, Rng.sub, Rng.all, isStringFamily], by
     simp [inst, instEntries, Rng.contains, Rng.all, I64.min, I64.max], by
     simp [inst, instStruct, hashGetW, keyIsStr]⟩
+
+/-- the intransitivity of Callable through the default Callable (C03_trans_fails_callable, known finding C03-trans-callable-top) seen one
+    level up, where soundness for `Type[..]` IS transitivity (known finding C01-type-of-callable-top); `Ty.Frag` asks the content of a
+    `Type[T]` to lie in `Ty.TA`, which has no Callable -/
+theorem C01_type_callable_witness :
+    ∃ (a b : Ty) (v : Val), asg idCfg true a b = true ∧ inst idCfg true b v = true ∧ inst idCfg true a v = false :=
+  ⟨.typ (.callable none (some .any) none), .typ (.callable none none none), .typ (.callable (some (.tuple [.str] none)) none none), by
+    simp [asg, asgRecv, sameNullary], by simp [inst, asg, asgRecv, sameNullary], by simp [inst, asg, asgRecv, sameNullary]⟩
 
 /-- THE EXCLUSION IS THE ONLY SOURCE: for types without `Type[..]` / `Iterable[..]` (`Ty.Plain`, where the instance relation does not
     depend on the rule: `inst_sfh`), wherever the code's assignability is unsound — `v` is an instance of `b` but not of `a` — the
